@@ -8,6 +8,7 @@ from ..loader import AnalysisError
 from .. import graph
 from ..roles import run_roles, RUN, is_self_attr, node_calls
 from ..dataflow import field_name
+from ..resolve import walk_scope
 from .common import (fact_part_attr, fact_call_method, has_fact, fmt_facts, field_ops, BoolEval,
                      is_name, is_attr_of, is_empty_list)
 
@@ -31,7 +32,7 @@ NOT_DECIDED = ['every string comparison result', 'the search over trailing seque
 
 def run(ctx):
     for fn in (r1_never_after, r2_check_guard, r3_unmatched_typestate, r4_repr_fallback,
-               r5_comment_only, r6_summary_flags, r7_got_eval_fresh, r8_trailing_sequences, r9_got_want_roles):
+               r5_comment_only, r5b_code_predicate_on_stripped_lines, r6_summary_flags, r7_got_eval_fresh, r8_trailing_sequences, r9_got_want_roles):
         ctx.rep.rule(fn, ctx)
 
 
@@ -254,6 +255,64 @@ def _repr_helper(ctx, f, call):
 
 def _is_repr_of(e, name):
     return isinstance(e, ast.Call) and is_name(e.func, 'repr') and len(e.args) == 1 and is_name(e.args[0], name)
+
+
+def _stripped_subject(f, e, comp_stack, depth=0):
+    """True / False / None(unknown): does expression e denote a line with its leading blanks removed?"""
+    if depth > 4:
+        return None
+    if isinstance(e, ast.Call) and isinstance(e.func, ast.Attribute) and e.func.attr in ('strip', 'lstrip') and not e.args:
+        return True
+    if isinstance(e, ast.Name):
+        # bound by an enclosing comprehension?
+        for comp in comp_stack:
+            for gen in comp.generators:
+                if isinstance(gen.target, ast.Name) and gen.target.id == e.id:
+                    it = gen.iter
+                    if isinstance(it, ast.Name):
+                        ds = [x for x in walk_scope(f.node) if isinstance(x, ast.Assign) and len(x.targets) == 1 and is_name(x.targets[0], it.id)]
+                        if len(ds) == 1 and isinstance(ds[0].value, (ast.ListComp, ast.GeneratorExp)):
+                            return _stripped_subject(f, ds[0].value.elt, [ds[0].value], depth + 1)
+                        if len(ds) == 1:
+                            it = ds[0].value
+                        else:
+                            return None
+                    if isinstance(it, (ast.ListComp, ast.GeneratorExp)):
+                        return _stripped_subject(f, it.elt, [it], depth + 1)
+                    if isinstance(it, ast.Attribute):
+                        return False        # iterates the raw lines of the part
+                    return None
+        ds = [x for x in walk_scope(f.node) if isinstance(x, ast.Assign) and len(x.targets) == 1 and is_name(x.targets[0], e.id)]
+        if len(ds) == 1:
+            return _stripped_subject(f, ds[0].value, comp_stack, depth + 1)
+        return None
+    if isinstance(e, ast.Attribute):
+        return False
+    return None
+
+
+def r5b_code_predicate_on_stripped_lines(ctx):
+    """`has_any_code` decides "only comments ran".  A doctest line keeps the blanks that follow its prompt (`>>>     # note`), so the comment test
+    has to look at the stripped line; on the raw line an indented comment counts as code and an all-comment doctest is reported passed, not skipped."""
+    rep = ctx.rep
+    f = ctx.func('xdoctest.doctest_part.DoctestPart.has_any_code')
+    tests = []
+
+    def visit(node, stack):
+        for ch in ast.iter_child_nodes(node):
+            st = stack + [ch] if isinstance(ch, (ast.ListComp, ast.GeneratorExp, ast.SetComp)) else stack
+            if isinstance(ch, ast.Call) and isinstance(ch.func, ast.Attribute) and ch.func.attr == 'startswith' and ch.args and isinstance(ch.args[0], ast.Constant) and ch.args[0].value == '#':
+                tests.append((ch, ch.func.value, st))
+            visit(ch, st)
+    visit(f.node, [])
+    rep.floor('C02.R5b', 'comment tests in has_any_code', len(tests), 1)
+    for (c, subj, st) in tests:
+        v = _stripped_subject(f, subj, st)
+        need(v is not None, 'C02.R5b: where the line tested by %s comes from was not recognised' % ctx.src(c))
+        rep.ob('C02.R5b', ctx.loc(f, c), ctx.src(c), v,
+               'the comment test sees the line without its leading blanks' if v else
+               'the comment test is applied to the raw executable line: `>>>     # comment` keeps its blanks after the prompt is cut, does not start with "#", and counts as code -- '
+               'a doctest in which only such comments "ran" is reported as passed instead of skipped', anchor=f.qualname)
 
 
 # ---------------------------------------------------------------------------
@@ -526,6 +585,8 @@ from ..selftest import fire, silent      # noqa: E402
 DE = 'xdoctest/doctest_example.py'
 CK = 'xdoctest/checker.py'
 VARIANTS = [
+    fire('comment-test-on-raw-lines', 'C02.R5b', ('xdoctest/doctest_part.py', "            for line in slines\n", "            for line in self.exec_lines\n")),
+    silent('comment-test-strips-in-place', ('xdoctest/doctest_part.py', "            not line or line.startswith('#')\n            for line in slines\n", "            not line.strip() or line.strip().startswith('#')\n            for line in self.exec_lines\n")),
     fire('skipped-flag-from-anything-ran', 'C02.R6', (DE, "        skipped = len(self._skipped_parts) == len(self._parts)\n", "        skipped = not self.anything_ran()\n")),
     fire('M28-continue-after-gotwant', 'C02.R1',
          (DE, "                    self.exc_info = sys.exc_info()\n                    if on_error == 'raise':\n                        raise\n                    break\n                except checker.ExtractGotReprException",
